@@ -33,7 +33,9 @@ fn result_bad(out: &mut Buf, key: &str, msg: &str, evals: u64, case: &[u8]) {
 /// one length: sentinel, X(len), sentinel, then X overwritten with len+1 and len-1
 fn c09_one(dir: &std::path::Path, is_key: bool, len: usize, seed: u64) -> Result<u64, String> {
     clear_dir(dir);
-    let p = Params::buckets(8);
+    // the key sweep runs on a one-bucket table: all records are in one chain, so a record that has to
+    // move is also re-linked
+    let p = Params::buckets(if is_key { 1 } else { 8 });
     let s1k = b"sentinel-1".to_vec();
     let s2k = b"sentinel-2".to_vec();
     let s1v = pat(seed ^ 1, 37);
@@ -505,6 +507,69 @@ fn c10_conversions<T: IntKey>(dom: &[u64], evals: &mut u64) -> Result<(), (Strin
     Ok(())
 }
 
+/// thorough tier: the x-th member of range `r` (four ranges of 2^30 integers each)
+fn c10_range_member(r: u8, i: u64) -> u64 {
+    match r {
+        0 => i,
+        1 => (1u64 << 63).wrapping_sub(1 << 29).wrapping_add(i),
+        2 => (0u64).wrapping_sub(1 << 30).wrapping_add(i),
+        _ => i.wrapping_mul(0x9E37_79B9_7F4A_7C15),
+    }
+}
+const C10_RANGES: [&str; 4] = ["0 .. 2^30", "2^63-2^29 .. 2^63+2^29 (the i64 sign change)", "2^64-2^30 .. 2^64 (the small negative i64)", "i * 0x9E3779B97F4A7C15 mod 2^64 for i < 2^30 (all byte positions and all vu64 lengths)"];
+const C10_CHUNK: u64 = 1 << 24;
+
+fn c10_range_one<T: IntKey>(x: u64) -> Option<String> {
+    let a = T::mk(x);
+    let b = T::mk_ref(&x);
+    if a.as_bytes() != b.as_bytes() {
+        return Some("by value and by reference give different keys".into());
+    }
+    if a.back() != x {
+        return Some(format!("converts back (by reference) to {}", show_int(T::ID, a.back())));
+    }
+    let c = T::from_bytes(a.as_bytes());
+    let y = c.back_val();
+    if y != x {
+        return Some(format!("its stored bytes {} convert back to {}", show(a.as_bytes()), show_int(T::ID, y)));
+    }
+    None
+}
+
+fn c10_range<T: IntKey>(r: u8, chunk: u64, evals: &mut u64) -> Result<(), (String, String)> {
+    let lo = chunk * C10_CHUNK;
+    let mut i = lo;
+    while i < lo + C10_CHUNK {
+        let hi = (i + 4096).min(lo + C10_CHUNK);
+        let res = guard_plain(|| {
+            for j in i..hi {
+                let x = c10_range_member(r, j);
+                if let Some(why) = c10_range_one::<T>(x) {
+                    return Some((x, why));
+                }
+            }
+            None
+        });
+        *evals += hi - i;
+        match res {
+            Out::Ok(None) => {}
+            Out::Ok(Some((x, why))) => return Err(("convert:round-trip".into(), format!("{}: {} {why}", T::ID.name(), show_int(T::ID, x)))),
+            o => {
+                // find the member that does not return
+                for j in i..hi {
+                    let x = c10_range_member(r, j);
+                    if let Some(f) = guard_plain(|| c10_range_one::<T>(x)).failed() {
+                        return Err((format!("convert:{}", crate::engine_a::fail_key(&o)), format!("{}: converting {} {f}", T::ID.name(), show_int(T::ID, x))));
+                    }
+                }
+                return Err((format!("convert:{}", crate::engine_a::fail_key(&o)), format!("{}: converting a block of range {} {}", T::ID.name(), C10_RANGES[r as usize], o.failed().unwrap_or_default())));
+            }
+        }
+        i = hi;
+    }
+    Ok(())
+}
+
 fn c10_map_level<T: IntKey>(dir: &std::path::Path, evals: &mut u64) -> Result<(), (String, String)>
 where
     T: for<'a> From<&'a T>,
@@ -599,6 +664,153 @@ fn byte_key_set() -> Vec<Vec<u8>> {
     v
 }
 
+/// every way the crate offers to make a key of type $t from the bytes $b: (name, the key)
+macro_rules! conv_family {
+    ($t:ty, $b:expr) => {{
+        let mut v = conv_family!($t, $b, nostr);
+        let b: &[u8] = $b;
+        if let Ok(st) = std::str::from_utf8(b) {
+            v.push(("From<&str>", <$t>::from(st)));
+            v.push(("From<String>", <$t>::from(st.to_string())));
+            v.push(("From<&String>", <$t>::from(&st.to_string())));
+        }
+        v
+    }};
+    ($t:ty, $b:expr, nostr) => {{
+        let b: &[u8] = $b;
+        let mut v: Vec<(&'static str, $t)> = Vec::new();
+        v.push(("From<&[u8]>", <$t>::from(b)));
+        v.push(("From<Vec<u8>>", <$t>::from(b.to_vec())));
+        v.push(("From<Self>", <$t>::from(<$t>::from(b))));
+        v.push(("From<&Self>", <$t>::from(&<$t>::from(b))));
+        macro_rules! arr {
+            ($n:literal) => {
+                if b.len() == $n {
+                    let a: [u8; $n] = b.try_into().unwrap();
+                    v.push(("From<&[u8; N]>", <$t>::from(&a)));
+                }
+            };
+        }
+        arr!(0);
+        arr!(1);
+        arr!(2);
+        arr!(3);
+        arr!(4);
+        arr!(5);
+        arr!(6);
+        arr!(7);
+        arr!(8);
+        arr!(9);
+        arr!(16);
+        v
+    }};
+}
+
+/// all conversions into a key from the same bytes give the same key (its bytes are the given bytes)
+fn c10_conversion_families(evals: &mut u64) -> Result<(), (String, String)> {
+    use abyssiniandb::{DbBytes, DbMapKeyType, DbString};
+    let mut set = byte_key_set();
+    for x in [0u64, 1, 7, 127, 128, 255, 256, 16383, 16384, 1 << 32, u64::MAX] {
+        set.push(x.to_le_bytes().to_vec());
+        set.push(x.to_be_bytes().to_vec());
+        set.push(decoder::vu_encode(x));
+    }
+    for n in 0..=9usize {
+        set.push((0..n as u8).map(|i| i * 37 + 1).collect());
+        set.push(vec![0u8; n]);
+        set.push(vec![0xFFu8; n]);
+    }
+    set.push(b"0123456789abcdef".to_vec());
+    set.sort();
+    set.dedup();
+    macro_rules! one_type {
+        ($t:ty, $name:expr) => {
+            for b in &set {
+                let r = guard_plain(|| conv_family!($t, &b[..]).into_iter().map(|(n, k)| (n, k.as_bytes().to_vec())).collect::<Vec<_>>());
+                match r {
+                    Out::Ok(fam) => {
+                        for (n, kb) in fam {
+                            *evals += 1;
+                            if &kb != b {
+                                return Err(("convert:family".into(), format!("{}: {n} of the bytes {} gives a key with the bytes {}", $name, show(b), show(&kb))));
+                            }
+                        }
+                    }
+                    o => return Err(("convert:family-panic".into(), format!("{}: making a key from the bytes {} {}", $name, show(b), o.failed().unwrap_or_default()))),
+                }
+            }
+        };
+    }
+    one_type!(DbBytes, "bytes");
+    one_type!(DbString, "string");
+    one_type!(DbU64, "u64");
+    one_type!(DbI64, "i64");
+    // a vu64 key made from bytes keeps the bytes only if they are a canonical vu64 encoding; use those
+    for x in int_domain(false) {
+        let b = decoder::vu_encode(x);
+        let r = guard_plain(|| conv_family!(DbVu64, &b[..], nostr).into_iter().map(|(n, k)| (n, k.as_bytes().to_vec())).collect::<Vec<_>>());
+        match r {
+            Out::Ok(fam) => {
+                for (n, kb) in fam {
+                    *evals += 1;
+                    if kb != b {
+                        return Err(("convert:family".into(), format!("vu64: {n} of the bytes {} gives a key with the bytes {}", show(&b), show(&kb))));
+                    }
+                }
+            }
+            o => return Err(("convert:family-panic".into(), format!("vu64: making a key from the bytes {} {}", show(&b), o.failed().unwrap_or_default()))),
+        }
+    }
+    Ok(())
+}
+
+/// the byte-string key types also convert from u64 (big endian): by value and by reference must agree
+fn c10_bytes_from_u64(evals: &mut u64) -> Result<(), (String, String)> {
+    use abyssiniandb::DbMapKeyType;
+    for x in boundary_ints() {
+        *evals += 1;
+        let a = abyssiniandb::DbBytes::from(x);
+        let b = abyssiniandb::DbBytes::from(&x);
+        let c = abyssiniandb::DbString::from(x);
+        let d = abyssiniandb::DbString::from(&x);
+        if a.as_bytes() != b.as_bytes() || c.as_bytes() != d.as_bytes() {
+            return Err(("convert:value-vs-reference".into(), format!("From<u64> by value and by reference give different byte/string keys for {x}")));
+        }
+    }
+    Ok(())
+}
+
+/// the integer key types (u64, i64) also accept raw byte keys of any length: each is its own entry
+fn c10_odd_keys_on_int_map<T: Kt>(dir: &std::path::Path, evals: &mut u64) -> Result<(), (String, String)> {
+    let kt = T::ID;
+    clear_dir(dir);
+    let keys: Vec<Vec<u8>> = vec![vec![], vec![7], 7u64.to_le_bytes().to_vec(), { let mut k = 7u64.to_le_bytes().to_vec(); k.push(0); k }, vec![7, 0], vec![0], 0u64.to_le_bytes().to_vec()];
+    let (db, mut m) = match open_map::<T>(dir, MAP_NAME, &Params::buckets(1)) {
+        Out::Ok(x) => x,
+        o => return Err(("odd:open".into(), format!("open {}", o.failed().unwrap_or_default()))),
+    };
+    for (i, k) in keys.iter().enumerate() {
+        *evals += 1;
+        let v = vec![i as u8 + 1; 3];
+        if guard(|| m.put(&k[..], &v)) != Out::Ok(()) {
+            return Err(("odd:put".into(), format!("{}: put of the {}-byte key {} fails", kt.name(), k.len(), show(k))));
+        }
+        if guard(|| m.len()) != Out::Ok(i as u64 + 1) {
+            return Err(("odd:identity".into(), format!("{}: after put of the {}-byte key {} len() is not {}: keys with different bytes are treated as the same entry", kt.name(), k.len(), show(k), i + 1)));
+        }
+    }
+    for (i, k) in keys.iter().enumerate() {
+        if guard(|| m.get(&k[..])) != Out::Ok(Some(vec![i as u8 + 1; 3])) {
+            return Err(("odd:get".into(), format!("{}: get of the {}-byte key {} gives another key's value", kt.name(), k.len(), show(k))));
+        }
+    }
+    let _ = guard_plain(move || {
+        drop(m);
+        drop(db);
+    });
+    Ok(())
+}
+
 fn c10_bytes<T: Kt>(dir: &std::path::Path, evals: &mut u64) -> Result<(), (String, String)> {
     // once with every key in one chain (1 bucket: the stored-key comparison decides identity), once spread
     c10_bytes_n::<T>(dir, 1, evals)?;
@@ -669,6 +881,20 @@ fn c10_job(payload: &[u8], _io: &mut WorkerIo) -> Vec<u8> {
     let scratch = Scratch::new("c10");
     let dir = scratch.fresh("d");
     let mut evals = 0u64;
+    if part >= 100 {
+        let (t, rg, chunk) = (part - 100, r.u8(), r.u64());
+        let res = match t {
+            0 => c10_range::<DbU64>(rg, chunk, &mut evals),
+            1 => c10_range::<DbI64>(rg, chunk, &mut evals),
+            _ => c10_range::<DbVu64>(rg, chunk, &mut evals),
+        };
+        let mut out = Buf::new();
+        match res {
+            Ok(()) => result_ok(&mut out, evals, evals),
+            Err((key, msg)) => result_bad(&mut out, &key, &msg, evals, payload),
+        }
+        return out.0;
+    }
     let dom = int_domain(full);
     let res = match part {
         0 => c10_conversions::<DbU64>(&dom, &mut evals),
@@ -677,8 +903,11 @@ fn c10_job(payload: &[u8], _io: &mut WorkerIo) -> Vec<u8> {
         3 => c10_map_level::<DbU64>(&dir, &mut evals),
         4 => c10_map_level::<DbI64>(&dir, &mut evals),
         5 => c10_map_level::<DbVu64>(&dir, &mut evals),
-        6 => c10_bytes::<abyssiniandb::DbBytes>(&dir, &mut evals),
-        _ => c10_bytes::<abyssiniandb::DbString>(&dir, &mut evals),
+        6 => c10_bytes::<abyssiniandb::DbBytes>(&dir, &mut evals).and_then(|_| c10_bytes_from_u64(&mut evals)),
+        7 => c10_bytes::<abyssiniandb::DbString>(&dir, &mut evals),
+        8 => c10_odd_keys_on_int_map::<DbU64>(&dir, &mut evals),
+        9 => c10_odd_keys_on_int_map::<DbI64>(&dir, &mut evals),
+        _ => c10_conversion_families(&mut evals),
     };
     let mut out = Buf::new();
     match res {
@@ -688,14 +917,14 @@ fn c10_job(payload: &[u8], _io: &mut WorkerIo) -> Vec<u8> {
     out.0
 }
 
-const C10_PARTS: [&str; 8] = ["u64 conversions", "i64 conversions", "vu64 conversions", "u64 map", "i64 map", "vu64 map", "bytes map", "string map"];
+const C10_PARTS: [&str; 11] = ["u64 conversions", "i64 conversions", "vu64 conversions", "u64 map", "i64 map", "vu64 map", "bytes map", "string map", "u64-raw-bytes map", "i64-raw-bytes map", "families of conversions from bytes"];
 
 pub fn c10(tier: &str, seed: u64) -> i32 {
     let mut ctx = Ctx::new("C10", tier, seed, "exploration");
     ctx.pool.reinit(vec![]);
     ctx.pool.watchdog = std::time::Duration::from_secs(60);
     let full = true;
-    let jobs: Vec<Vec<u8>> = (0..8u8)
+    let jobs: Vec<Vec<u8>> = (0..11u8)
         .map(|p| {
             let mut b = Buf::new();
             b.u8(JOB_F_C10).u8(p).u8(full as u8);
@@ -727,6 +956,49 @@ pub fn c10(tier: &str, seed: u64) -> i32 {
                 ctx.run.violation(Violation { prop: "C10".into(), key: format!("{}:crash", C10_PARTS[i].split(' ').next().unwrap()), message: msg.clone(), replay: Replay { engine: "C10".into(), config: vec![], case: jobs[i][1..].to_vec(), story: vec![msg] } });
             }
         }
+    }
+    let mut swept = 0u64;
+    if ctx.run.thorough() && ctx.run.violations.is_empty() {
+        // four ranges of 2^30 integers each, per integer key type, in blocks of 2^24
+        let mut rjobs: Vec<Vec<u8>> = Vec::new();
+        for t in 0..3u8 {
+            for rg in 0..4u8 {
+                for chunk in 0..((1u64 << 30) / C10_CHUNK) {
+                    let mut b = Buf::new();
+                    b.u8(JOB_F_C10).u8(100 + t).u8(1).u8(rg).u64(chunk);
+                    rjobs.push(b.0);
+                }
+            }
+        }
+        ctx.pool.watchdog = std::time::Duration::from_secs(600);
+        let results = ctx.pool.map(&rjobs, |i| i);
+        for (i, res) in results.into_iter().enumerate() {
+            let tname = ["u64", "i64", "vu64"][(rjobs[i][1] - 100) as usize];
+            match res {
+                JobResult::Done(b) => {
+                    let mut r = Rd::new(&b);
+                    if r.u8() == 0 {
+                        let e = r.u64();
+                        swept += e;
+                        ctx.run.add(&format!("range_sweep_{tname}"), e as i64);
+                    } else {
+                        let key = r.string();
+                        let msg = r.string();
+                        swept += r.u64();
+                        let case = r.vec();
+                        ctx.run.violation(Violation { prop: "C10".into(), key: format!("{tname}:{key}"), message: msg.clone(), replay: Replay { engine: "C10".into(), config: vec![], case, story: vec![format!("range sweep: {}", C10_RANGES[rjobs[i][3] as usize]), msg] } });
+                    }
+                }
+                JobResult::Crashed { how, .. } => {
+                    let msg = format!("range sweep {tname} {}: does not return normally: {how}", C10_RANGES[rjobs[i][3] as usize]);
+                    ctx.run.violation(Violation { prop: "C10".into(), key: format!("{tname}:crash"), message: msg.clone(), replay: Replay { engine: "C10".into(), config: vec![], case: rjobs[i][1..].to_vec(), story: vec![msg] } });
+                }
+            }
+        }
+        evals += swept;
+        nt += swept;
+        ctx.run.set("range_sweep", J::s(&format!("thorough tier: per integer key type every member of four ranges of 2^30 integers ({}): by value = by reference, integer -> key -> integer and integer -> key -> stored bytes -> key -> integer are the identity (hence the encodings of different integers differ); {swept} conversions checked", C10_RANGES.join("; "))));
+        eprintln!("[C10] range sweep: {swept} integers x conversions");
     }
     let dom = int_domain(full);
     eprintln!("[C10] integer domain {} values, boundary subset {}, evaluations {evals}", dom.len(), boundary_ints().len());
@@ -766,11 +1038,13 @@ pub fn replay_generic(kind: u8, case: &[u8]) -> i32 {
 // ---------------------------------------------------------------------------------------------
 // C13: wrong key type / foreign signatures
 
-fn sample_image(kt: KtId, dir: &std::path::Path, empty: bool) -> Result<Image, String> {
+const C13_TABLES: [u64; 4] = [8, 1, 4, 1024];
+
+fn sample_image(kt: KtId, dir: &std::path::Path, empty: bool, buckets: u64) -> Result<Image, String> {
     clear_dir(dir);
     let k = crate::alphabet::int_key(kt, 5);
     let r: Result<(), String> = crate::with_kt!(kt, T => {
-        match open_map::<T>(dir, MAP_NAME, &Params::buckets(8)) {
+        match open_map::<T>(dir, MAP_NAME, &Params::buckets(buckets)) {
             Out::Ok((db, mut m)) => {
                 let r = if empty { Out::Ok(()) } else { guard(|| m.put(&k[..], b"payload")) };
                 drop(m);
@@ -826,9 +1100,10 @@ fn try_open_as(kt: KtId, img: &Image, dir: &std::path::Path) -> Result<Option<St
 
 fn c13_job(payload: &[u8], io: &mut WorkerIo) -> Vec<u8> {
     let mut r = Rd::new(payload);
-    let mode_raw = r.u8(); // bit 0: 0 cross-type, 1 signature byte mutations; bit 1: maps that never held an entry
+    let mode_raw = r.u8(); // bit 0: 0 cross-type, 1 signature byte mutations; bit 1: maps that never held an entry; bits 2-3: table size
     let mode = mode_raw & 1;
     let empty = mode_raw & 2 != 0;
+    let buckets = C13_TABLES[(mode_raw >> 2) as usize & 3];
     let a = KtId::from_u8(r.u8());
     let only_file = r.u8(); // 255 all
     let only_byte = r.u32(); // u32::MAX all
@@ -837,7 +1112,7 @@ fn c13_job(payload: &[u8], io: &mut WorkerIo) -> Vec<u8> {
     let work = scratch.fresh("w");
     let mut out = Buf::new();
     let mut evals = 0u64;
-    let img_a = match sample_image(a, &dir, empty) {
+    let img_a = match sample_image(a, &dir, empty, buckets) {
         Ok(i) => i,
         Err(e) => {
             result_bad(&mut out, "setup", &format!("cannot create a {} map: {e}", a.name()), 0, payload);
@@ -850,7 +1125,7 @@ fn c13_job(payload: &[u8], io: &mut WorkerIo) -> Vec<u8> {
         // only_file = the other type, only_byte = sub case (0: A files opened as B; 1..3: A map with B's htx/key/val)
         let b = KtId::from_u8(only_file);
         let sub = only_byte as usize;
-        let img_b = match sample_image(b, &dir, empty) {
+        let img_b = match sample_image(b, &dir, empty, buckets) {
             Ok(i) => i,
             Err(e) => {
                 result_bad(&mut out, "setup", &format!("cannot create a {} map: {e}", b.name()), evals, payload);
@@ -867,7 +1142,7 @@ fn c13_job(payload: &[u8], io: &mut WorkerIo) -> Vec<u8> {
             match try_open_as(b, &img_a, &work) {
                 Ok(None) => {}
                 Ok(Some(what)) => {
-                    fail(&mut out, format!("sig-collision:{pairkey}:open-{}-as-{}{}", a.name(), b.name(), if empty { ":empty-map" } else { "" }), format!("files created for key type {} ({}) open as key type {} and answer: {what}", a.name(), if empty { "never updated" } else { "one entry" }, b.name()), evals, payload.to_vec());
+                    fail(&mut out, format!("sig-collision:{pairkey}:open-{}-as-{}{}", a.name(), b.name(), if empty { ":empty-map" } else { "" }), format!("files created for key type {} ({}, {buckets} buckets) open as key type {} and answer: {what}", a.name(), if empty { "never updated" } else { "one entry" }, b.name()), evals, payload.to_vec());
                     return out.0;
                 }
                 Err(e) => {
@@ -887,7 +1162,7 @@ fn c13_job(payload: &[u8], io: &mut WorkerIo) -> Vec<u8> {
             match try_open_as(a, &mixed, &work) {
                 Ok(None) => {}
                 Ok(Some(what)) => {
-                    fail(&mut out, format!("sig-collision:{pairkey}:{}-map-with-{}-{f}{}", a.name(), b.name(), if empty { ":empty-map" } else { "" }), format!("a {} map ({}) whose .{f} file comes from a {} map opens as {} and answers: {what}", a.name(), if empty { "never updated" } else { "one entry" }, b.name(), a.name()), evals, payload.to_vec());
+                    fail(&mut out, format!("sig-collision:{pairkey}:{}-map-with-{}-{f}{}", a.name(), b.name(), if empty { ":empty-map" } else { "" }), format!("a {} map ({}, {buckets} buckets) whose .{f} file comes from a {} map opens as {} and answers: {what}", a.name(), if empty { "never updated" } else { "one entry" }, b.name(), a.name()), evals, payload.to_vec());
                     return out.0;
                 }
                 Err(e) => {
@@ -922,7 +1197,7 @@ fn c13_job(payload: &[u8], io: &mut WorkerIo) -> Vec<u8> {
                             let mut case = Buf::new();
                             case.u8(mode_raw).u8(a as u8).u8(fi as u8).u32((pos * 256) as u32);
                             let sig = if pos < 8 { "format signature" } else { "type signature" };
-                            fail(&mut out, format!("sig-mutation:{}:{f}:{sig}{}", a.name(), if empty { ":empty-map" } else { "" }).replace(' ', "-"), format!("{} map: byte {pos} of .{f} ({sig}) changed to 0x{newb:02x}: the open is accepted and answers: {what}", a.name()), evals, case.0);
+                            fail(&mut out, format!("sig-mutation:{}:{f}:{sig}{}", a.name(), if empty { ":empty-map" } else { "" }).replace(' ', "-"), format!("{} map ({buckets} buckets): byte {pos} of .{f} ({sig}) changed to 0x{newb:02x}: the open is accepted and answers: {what}", a.name()), evals, case.0);
                             return out.0;
                         }
                         Err(e) => {
@@ -943,7 +1218,8 @@ pub fn c13(tier: &str, seed: u64) -> i32 {
     ctx.pool.reinit(vec![]);
     ctx.pool.watchdog = std::time::Duration::from_secs(60);
     let mut jobs: Vec<Vec<u8>> = Vec::new();
-    for empty in [0u8, 2] {
+    for (geo, empty) in [(0u8, 0u8), (0, 2), (1, 0), (1, 2), (2, 0), (2, 2), (3, 0), (3, 2)] {
+        let empty = empty | (geo << 2);
         for a in KtId::ALL {
             for bt in KtId::ALL {
                 if bt == a {
@@ -996,7 +1272,7 @@ pub fn c13(tier: &str, seed: u64) -> i32 {
     eprintln!("[C13] open attempts: {evals}");
     ctx.run.set("evaluations", J::Int(evals as i64));
     ctx.run.set("distinct_nontrivial", J::Int(evals as i64));
-    ctx.run.set("rule", J::s("complete enumeration: (1) every ordered pair of the five key types: files created for A opened as B, and a directory of A files in which one of .htx/.key/.val comes from a B map opened as A; (2) per key type and per file every single-byte change (255 values) of each of the 16 leading signature bytes (5 x 3 x 16 x 255 = 61200); both families once on maps holding one entry and once on maps that were created and never updated (files of exactly header size). each attempt runs under catch_unwind: the open must fail (Err or panic) or at least no len/get/includes_key/iteration may answer Ok; afterwards the three files must be byte-identical. every case is distinct"));
+    ctx.run.set("rule", J::s("complete enumeration: (1) every ordered pair of the five key types: files created for A opened as B, and a directory of A files in which one of .htx/.key/.val comes from a B map opened as A; (2) per key type and per file every single-byte change (255 values) of each of the 16 leading signature bytes (5 x 3 x 16 x 255 = 61200 per table size and fill state); both families on tables of 8, 1, 4 and 1024 buckets (the table file is 137 bytes long with one bucket), each once on maps holding one entry and once on maps that were created and never updated (files of exactly header size). each attempt runs under catch_unwind: the open must fail (Err or panic) or at least no len/get/includes_key/iteration may answer Ok; afterwards the three files must be byte-identical. every case is distinct"));
     ctx.run.sample(J::s("string files opened as bytes"));
     ctx.run.sample(J::s("u64 map whose .val comes from an i64 map, opened as u64"));
     ctx.run.sample(J::s("bytes map, byte 6 of .key changed from 'K' to 'L'"));
@@ -1291,6 +1567,97 @@ fn check_state<T: Kt>(m: &mut FileDbMap<T>, keys: &[Vec<u8>], model: &BTreeMap<V
     Ok(())
 }
 
+/// put_from_iter takes ready-made keys; callers make them with the owned conversion (`k.into()`), the
+/// individual calls with the borrowed one: map A gets put(&q, v) for each pair, map B gets
+/// put_from_iter(pairs.map(|(q, v)| (q.into(), v))); both must end up equal and answer get(&q)
+macro_rules! owned_vs_borrowed {
+    ($t:ty, $q:ty, $qs:expr, $dir:expr, $evals:expr, $what:expr) => {{
+        let qs: Vec<$q> = $qs;
+        let kt = <$t as Kt>::ID;
+        clear_dir($dir);
+        let da = $dir.join("a");
+        let db_ = $dir.join("b");
+        let _ = std::fs::create_dir_all(&da);
+        let _ = std::fs::create_dir_all(&db_);
+        let p = Params::buckets(2);
+        let (dba, mut ma) = match open_map::<$t>(&da, MAP_NAME, &p) {
+            Out::Ok(x) => x,
+            o => return Err(("open".into(), format!("open {}", o.failed().unwrap_or_default()))),
+        };
+        let (dbb, mut mb) = match open_map::<$t>(&db_, MAP_NAME, &p) {
+            Out::Ok(x) => x,
+            o => return Err(("open".into(), format!("open {}", o.failed().unwrap_or_default()))),
+        };
+        let vals: Vec<Vec<u8>> = (0..qs.len()).map(|i| format!("value-{i}").into_bytes()).collect();
+        for (q, v) in qs.iter().zip(vals.iter()) {
+            *$evals += 1;
+            if guard(|| ma.put(q, v)) != Out::Ok(()) {
+                return Err(("owned-keys:put".into(), format!("{}: put with a {} key fails", kt.name(), $what)));
+            }
+        }
+        let pairs: Vec<($t, Vec<u8>)> = qs.iter().cloned().zip(vals.iter().cloned()).map(|(q, v)| (q.into(), v)).collect();
+        let r = guard(|| mb.put_from_iter(pairs.into_iter()));
+        if r != Out::Ok(()) {
+            return Err(("owned-keys:put_from_iter".into(), format!("{}: put_from_iter with keys made by into() from {} {}", kt.name(), $what, r.failed().unwrap_or_default())));
+        }
+        for (q, v) in qs.iter().zip(vals.iter()) {
+            *$evals += 1;
+            let ra = guard(|| ma.get(q));
+            let rb = guard(|| mb.get(q));
+            if ra != Out::Ok(Some(v.clone())) || rb != ra {
+                return Err(("owned-keys:get".into(), format!("{}: after put_from_iter with keys made by into() from {} values, get(&key) gives {:?}; after the individual put(&key, ..) calls it gives {:?}", kt.name(), $what, rb, ra)));
+            }
+        }
+        let ia = guard_plain(|| sorted_items(&mut ma));
+        let ib = guard_plain(|| sorted_items(&mut mb));
+        if ia != ib {
+            return Err(("owned-keys:state".into(), format!("{}: put_from_iter with keys made by into() from {} values leaves other entries than the individual puts", kt.name(), $what)));
+        }
+        let _ = guard_plain(move || {
+            drop(ma);
+            drop(mb);
+            drop(dba);
+            drop(dbb);
+        });
+    }};
+}
+
+fn sorted_items<T: Kt>(m: &mut FileDbMap<T>) -> Vec<(Vec<u8>, Vec<u8>)> {
+    let mut v: Vec<(Vec<u8>, Vec<u8>)> = m.iter().map(|(k, v)| (k.as_bytes().to_vec(), v)).collect();
+    v.sort();
+    v
+}
+
+fn c14_owned_keys(kt: KtId, dir: &std::path::Path, evals: &mut u64) -> Result<(), (String, String)> {
+    use abyssiniandb::{DbBytes, DbString};
+    let ints: Vec<u64> = vec![0, 1, 2, 255, 256, 258, 65535, 1 << 32, 0x0102_0304_0506_0708, u64::MAX - 1, u64::MAX];
+    let strs: Vec<String> = vec!["".into(), "a".into(), "ab".into(), "grüße".into(), "a\0".into(), "mango".into(), "man".into()];
+    let vecs: Vec<Vec<u8>> = vec![vec![], vec![0], vec![0, 0], vec![0xFF, 0xFE], vec![1, 2, 3, 4, 5, 6, 7, 8], vec![1, 2, 3, 4, 5, 6, 7, 8, 9]];
+    match kt {
+        KtId::Bytes => {
+            owned_vs_borrowed!(DbBytes, u64, ints.clone(), dir, evals, "u64");
+            owned_vs_borrowed!(DbBytes, String, strs.clone(), dir, evals, "String");
+        }
+        KtId::Str => {
+            owned_vs_borrowed!(DbString, u64, ints.clone(), dir, evals, "u64");
+            owned_vs_borrowed!(DbString, String, strs.clone(), dir, evals, "String");
+        }
+        KtId::U64 => {
+            owned_vs_borrowed!(DbU64, u64, ints.clone(), dir, evals, "u64");
+            owned_vs_borrowed!(DbU64, String, strs.clone(), dir, evals, "String");
+        }
+        KtId::I64 => {
+            owned_vs_borrowed!(DbI64, i64, ints.iter().map(|x| *x as i64).collect(), dir, evals, "i64");
+            owned_vs_borrowed!(DbI64, String, strs.clone(), dir, evals, "String");
+        }
+        KtId::Vu64 => {
+            owned_vs_borrowed!(DbVu64, u64, ints.clone(), dir, evals, "u64");
+        }
+    }
+    let _ = vecs;
+    Ok(())
+}
+
 fn c14_job(payload: &[u8], _io: &mut WorkerIo) -> Vec<u8> {
     let mut r = Rd::new(payload);
     let kt = KtId::from_u8(r.u8());
@@ -1298,7 +1665,7 @@ fn c14_job(payload: &[u8], _io: &mut WorkerIo) -> Vec<u8> {
     let scratch = Scratch::new("c14");
     let dir = scratch.fresh("d");
     let mut evals = 0u64;
-    let res = crate::with_kt!(kt, T => c14_type::<T>(&dir, max_len, &mut evals));
+    let res = c14_owned_keys(kt, &dir, &mut evals).and_then(|_| crate::with_kt!(kt, T => c14_type::<T>(&dir, max_len, &mut evals)));
     let mut out = Buf::new();
     match res {
         Ok(()) => result_ok(&mut out, evals, evals),
@@ -1312,7 +1679,7 @@ pub fn c14(tier: &str, seed: u64) -> i32 {
     let thorough = ctx.thorough();
     ctx.pool.reinit(vec![]);
     ctx.pool.watchdog = std::time::Duration::from_secs(120);
-    let max_len: u8 = if thorough { 5 } else { 4 };
+    let max_len: u8 = if thorough { 8 } else { 4 };
     let jobs: Vec<Vec<u8>> = KtId::ALL
         .iter()
         .map(|k| {
